@@ -62,14 +62,19 @@ PROPS = {
     },
     "C09": {
         "engines": [{"name": "codec", "n": {"quick": 1200, "thorough": 40000}, "profiles": ["debug", "release"], "oracle": "oracle_C09",
-                     "known": {}, "count": []}],
+                     "known": {}, "count": []},
+                    {"name": "srvsplit", "n": {"quick": 60, "thorough": 3000}, "profiles": ["debug"], "oracle": "oracle_C09"},
+                    {"name": "srvhandler", "n": {"quick": 400, "thorough": 20000}, "profiles": ["debug"], "oracle": "oracle_C09", "shard": 60}],
         "tie_lemmas": ["tie_max_message_size", "tie_limit_operand", "tie_limit_operator", "tie_varint_error_mapping"],
         "rule": "engine codec (debug = overflow-checked and release profile; in release every decode runs in a confined child process): "
                 "length prefixes of every varint byte length 1..11 (values around every power of two, around the 4 MiB limit, overlong / overflowing / "
                 "non-minimal encodings) followed by 0, 1, 3 and 40 payload bytes; all frames of <= 3 (quick) / 4 (thorough) bytes over a 14-byte boundary alphabet; "
                 "encode/decode of generated message values; every proper prefix of small frames; the harness's own non-canonical encodings; mutated frames. "
-                "Non-trivial = a non-empty frame; distinct = distinct input terms.",
-        "exhaustive_note": "all frame bodies of length <= 3 (quick) / 4 (thorough) over a 14-byte alphabet; varint prefixes of every byte length",
+                "Non-trivial = a non-empty frame; distinct = distinct input terms. "
+                "Outbound: engine srvsplit — the real server handler over an all-accepting stream with batches of 1..6 blocks whose encoded total is 4 MiB + delta for every delta in -8..8, "
+                "oversize blocks alone and inside a batch, random batches of blocks up to 4 MiB; per frame the number of blocks and the frame length are compared with the model on sizes; "
+                "engine srvhandler — the server handler over a scripted stream (small blocks, every I/O outcome), bytes compared exactly.",
+        "exhaustive_note": "all frame bodies of length <= 3 (quick) / 4 (thorough) over a 14-byte alphabet; varint prefixes of every byte length; every delta in -8..8 around the limit for batches of 1..6 blocks",
         "assumptions": ["64-bit usize", "outbound half (C09_outbound_split) is about the server handler model, see Props_C09.v"],
     },
     "C06": {
@@ -166,6 +171,42 @@ PROPS = {
         "assumptions": ["32 <= S <= 255; a hasher registered for code 0x12 returns sha2-256 multihashes (sha_respecting)",
                         "partial: panics inside third-party code that is not modelled (yamux, multistream-select, libp2p-swarm), unsafe code and allocation failure are outside the models",
                         "known finding F2 (class codec_overrun) is excluded and reported as KNOWN-FINDING"],
+    },
+    "C05": {
+        "engines": [{"name": "client", "n": {"quick": 600, "thorough": 30000}, "profiles": ["debug"], "oracle": "oracle_C05", "shard": 15},
+                    {"name": "handler", "n": {"quick": 1500, "thorough": 60000}, "profiles": ["debug"], "oracle": "oracle_C05", "shard": 60, "count": ["is_disciplined"]}],
+        "tie_lemmas": ["tie_send_full_interval", "tie_receive_request_timeout", "tie_start_sending_timeout", "tie_peer_initial_send_full"],
+        "rule": "engine client: see C03 (faults: Failed reports from the sending connection, reports withheld past 1 s of virtual time, connections closed in every sending state, reports from other "
+                "connections; oracle: first wantlist of a session is full, the first wantlist after a fault is full and avoids the faulty connection). engine handler: the client half of the real ConnHandler "
+                "driven through the ConnectionHandler trait over a scripted substream (every poll_write / poll_flush / poll_close outcome: accept n bytes, zero, error, pending), substream allocation failures, "
+                "virtual-clock advances around the 5 s start timeout, poll_close at every step; 3/4 of the histories respect the behaviour's and libp2p-swarm's side of the contract, 1/4 do not (correspondence only). "
+                "Oracle: an accepted wantlist is always either being worked on (timer armed / stream held) or resolved by a Ready / Failed report; poll_close resolves it. Non-trivial: every history.",
+        "assumptions": ["partial: the clock is virtual (src/verif clock replaces futures_timer::Delay and web_time::Instant under the guard); whether a needed poll is actually scheduled (wakers) is outside the models",
+                        "a Sending transmission has no timeout in the behaviour (F12): the refresh does not reach a peer whose handler never reports; the fault list of C05 does not include a stalled flush",
+                        "a request unacknowledged for 1 s on the only connection makes the client forget the peer until it reconnects (design of PeerState::established_connections): 'sent over a remaining connection if there is one'"],
+    },
+    "C14": {
+        "engines": [{"name": "handler", "n": {"quick": 1500, "thorough": 60000}, "profiles": ["debug"], "oracle": "oracle_C14", "shard": 60, "count": ["is_disciplined"]},
+                    {"name": "client", "n": {"quick": 500, "thorough": 30000}, "profiles": ["debug"], "oracle": "oracle_C14", "shard": 15},
+                    {"name": "net", "n": {"quick": 400, "thorough": 20000}, "profiles": ["debug"], "oracle": "oracle_C14", "shard": 100}],
+        "rule": "engine handler: see C05 (oracle: the bytes accepted by each stream are a prefix of the frame of exactly one accepted wantlist, a stream never carries more than one frame, Ready is reported iff some stream "
+                "was written the complete frame). engine client: see C03 (oracle: no SendWantlist for a peer while one is outstanding). engine net: 2-4 complete nodes (real Behaviour + real ConnHandlers + real codec) wired by the "
+                "harness's mini swarm over in-memory pipes with arbitrary read chunking, schedules and blockstore latencies; histories of connect / disconnect / get / cancel / local put / evict; after settle + two refresh periods the "
+                "serving side's record of a requester's wants must equal the requester's live wants for every connected pair.",
+        "assumptions": ["partial: A-SWARM / A-STREAM — libp2p-swarm's event plumbing and yamux streams are replaced by the harness's mini swarm and pipes (ordered, lossless until closed); real swarms are not exercised"],
+    },
+    "C02": {
+        "engines": [{"name": "net", "n": {"quick": 600, "thorough": 30000}, "profiles": ["debug"], "oracle": "oracle_C02", "shard": 100},
+                    {"name": "server", "n": {"quick": 80, "thorough": 3000}, "profiles": ["debug"], "oracle": "oracle_C06", "shard": 20},
+                    {"name": "client", "n": {"quick": 300, "thorough": 20000}, "profiles": ["debug"], "oracle": "oracle_C04", "shard": 15}],
+        "rule": "engine net: 2-4 complete nodes (real Behaviour + real ConnHandlers + real codec) wired by the harness's mini swarm over in-memory pipes; random histories of connect (up to 3 connections per pair) / "
+                "disconnect / get / cancel / local put / evict / clock advances, interleaved with harness-chosen scheduling steps (which behaviour or handler is polled, how many bytes a read returns, which blockstore call "
+                "completes next); then the fault-free continuation: settle, two refresh periods, settle. Oracle: every uncancelled query whose block is held by a node that is connected (same protocol name) at the end got "
+                "exactly one response carrying the block. engines server / client: the components' own liveness oracles (C06, C04). Non-trivial = at least one query; distinct = distinct observations.",
+        "assumptions": ["partial: fairness (every component is polled again and again) is built into `settle` and into the harness's quiesce loop; whether the real code registers a waker for every condition that needs a "
+                        "poll is runtime behaviour outside the models", "partial: A-SWARM / A-STREAM (mini swarm and pipes instead of libp2p-swarm / yamux)", "A-STORE: healthy blockstore (get answers the last put unless evicted)",
+                        "time passes only when no component is starved for >= 1 s (a handler acknowledgement withheld for 1 s is a C05 fault, after which the client forgets a peer whose only connection it was)",
+                        "the general theorems over all reachable nets are work in progress (Net_proofs*.v); Props_C02.v currently holds the machine-checked composition scenarios"],
     },
 }
 NOT_CLAIMED = {}
